@@ -296,11 +296,13 @@ pub fn run_access<W: WorldSpec>(w: &W, m: &Model, stats: &mut Stats, held: &mut 
     let takes_borrow = match acc.kind {
         AccKind::FindBorrow | AccKind::BorrowComp | AccKind::IterBorrow => ent.is_some(),
         AccKind::BorrowSlice => true,
-        AccKind::CloneWorld => true,
+        AccKind::CloneWorld | AccKind::CloneArch => true,
         AccKind::DoubleFind | AccKind::DoubleIter => false,
     };
     let predicted = match acc.kind {
         AccKind::CloneWorld => held.iter().any(|(_, _, hm)| *hm),
+        // Archetype::clone borrows every column of that archetype only
+        AccKind::CloneArch => held.iter().any(|(ha, _, hm)| *ha == a && *hm),
         _ => takes_borrow && conflicts(held, a, col, mutable),
     };
     let mut ran_inner = false;
@@ -362,6 +364,10 @@ pub fn run_access<W: WorldSpec>(w: &W, m: &Model, stats: &mut Stats, held: &mut 
                 let c = w.clone();
                 *ran = true;
                 drop(c);
+            }
+            AccKind::CloneArch => {
+                drv.clone_and_drop(w);
+                *ran = true;
             }
             AccKind::DoubleFind | AccKind::DoubleIter => {}
         })
